@@ -565,7 +565,7 @@ def enum_cases(thorough):
     # every error code
     for svc in ("cfg_node", "cfg_bit", "store"):
         for code in range(256):
-            specs = [0] if code != 255 else ([1, 0x80, 0xFF] if not thorough else range(256))
+            specs = [0] if code != 255 else ([0, 1, 0x80, 0xFF] if not thorough else range(256))
             for spec in specs:
                 yield {"slave": slave(state=conf),
                        "ops": [dict(svc_op(svc, code), fault={"kind": "err", "code": code, "spec": spec})]}
